@@ -78,12 +78,16 @@ func judgeBash(c *Check, bc BashCase) caseOutcome {
 	// run in a fresh sandbox so that source files are not visible to the script
 	run := newSandbox()
 	defer os.RemoveAll(run)
-	rr := RunBash(run, tr.Script, RunOpts{Stdin: bc.Stdin})
+	rr := RunBash(run, tr.Script, RunOpts{Stdin: bc.Stdin, Timeout: 6 * time.Second})
 	if rr.TimedOut || rr.Capped {
-		// decide on logical steps, not on wall time
+		// decide on logical steps, not on wall time; confirm at most a few per run
+		if c.bumpNonterm() > 8 {
+			c.Inconclusive("non-termination suspected, confirmation skipped (8 already confirmed in this run)")
+			return outcomeInconclusive
+		}
 		run2 := newSandbox()
 		defer os.RemoveAll(run2)
-		limit := 400*ref.Steps + 4000
+		limit := 100*ref.Steps + 5000
 		r2 := RunBashStepLimited(run2, tr.Script, limit, RunOpts{Stdin: bc.Stdin})
 		if r2.Exit == 97 {
 			files["observed.stdout"] = clip(rr.Stdout, 4000)
